@@ -11,12 +11,21 @@ def gen_step(rng, n, act_p, waits, targets):
     return acts
 
 
-def gen_script(rng, g, n, max_steps, act_p, waits, wait_p=0.5):
-    """steps ending in a yield, then a final `ret` step (every script ends with exactly one ret)"""
+EXCS = ['Quit', 'Quit', 'SwitchWorld', 'RuntimeError', 'KeyError', 'ZeroDivisionError']
+
+
+def gen_script(rng, g, n, max_steps, act_p, waits, wait_p=0.5, raise_p=0.0):
+    """steps ending in a yield, then a final `ret` step (every script ends with exactly one ret);
+    with probability raise_p one of the steps leaves with an exception instead"""
     targets = list(range(n)) + [g, g] + ([n] if rng.random() < 0.2 else [])
     steps = []
-    for _ in range(rng.randint(0, max_steps)):
+    k = rng.randint(0, max_steps)
+    crash_at = rng.randrange(k) if k and rng.random() < raise_p else None
+    for j in range(k):
         acts = gen_step(rng, n, act_p, waits, targets)
+        if j == crash_at:
+            steps.append(' ; '.join(acts + [f'raise {rng.choice(EXCS)}']))
+            continue
         w = rng.choice(waits) if rng.random() < wait_p else rng.choice(['N', 'N', '0', '-1'])
         steps.append(' ; '.join(acts + [f'yield {w}']))
     acts = gen_step(rng, n, act_p, waits, targets)
@@ -49,7 +58,8 @@ def gen_lifecycle(rng, tier, max_gens=4, max_ops=25):
     """C09: interleavings of start/kill/state/process/value from outside and inside bodies."""
     n = rng.randint(1, max_gens)
     act_p = rng.choice([0.0, 0.2, 0.4, 0.6])
-    lines = [gen_script(rng, g, n, rng.randint(0, 6), act_p, WAITS, rng.choice([0.2, 0.5]))
+    raise_p = rng.choice([0.0, 0.0, 0.25, 0.5])
+    lines = [gen_script(rng, g, n, rng.randint(0, 6), act_p, WAITS, rng.choice([0.2, 0.5]), raise_p)
              for g in range(n)]
     targets = list(range(n)) * 3 + [n]
     kinds = ['start'] * 4 + ['kill'] * 3 + ['state'] + ['process'] * 5 + ['value']
@@ -62,6 +72,65 @@ def gen_lifecycle(rng, tier, max_gens=4, max_ops=25):
             lines.append(f'op process {rng.choice(DTS)}')
         else:
             lines.append(f'op {k} {rng.choice(targets)}')
+    return lines
+
+
+def gen_raise(rng, tier):
+    """C08/C09: ordinary coroutines, one (sometimes two) of which leaves its body with an exception
+    (quit_loop() / switch() inside a coroutine, or a bug) while others are queued in front of it
+    and behind it; the caller catches the exception and keeps calling process()."""
+    n = rng.randint(2, 5)
+    raisers = rng.sample(range(n), 1 if rng.random() < 0.8 else 2)
+    waits = rng.choice([['N'], ['N', 'N', '0', '-1'], ['N', 'N', '2', '8'], WAITS])
+    lines = []
+    for g in range(n):
+        k = rng.randint(4, 9)
+        steps = [f'yield {rng.choice(waits)}' for _ in range(k)]
+        if g in raisers:
+            steps[rng.randrange(0, min(k, 4))] = f'raise {rng.choice(EXCS)}'
+        elif rng.random() < 0.15:
+            steps[rng.randrange(k)] = f'kill {g} ; yield N'         # kills itself, others behind it
+        lines.append(f'gen {g} : ' + ' | '.join(steps + ['ret N']))
+    order = list(range(n))
+    rng.shuffle(order)
+    late = order.pop() if n > 2 and rng.random() < 0.3 else None
+    for g in order:
+        lines.append(f'op start {g}')
+    for f in range(rng.randint(6, 12)):
+        if late is not None and rng.random() < 0.3:
+            lines.append(f'op start {late}')
+            late = None
+        lines.append(f'op process {rng.choice([0, 1, 1, 2, 8])}')
+        if rng.random() < 0.1:
+            lines.append(f'op state {rng.randrange(n)}')
+    for g in raisers:
+        lines += [f'op state {g}', f'op kill {g}']
+    lines.append('op process 1')
+    return lines
+
+
+def gen_self_kill(rng, tier):
+    """C08/C09: a coroutine kills itself (as through its own promise) from inside its body while
+    other coroutines are queued behind it and in front of it; some restart themselves at once."""
+    n = rng.randint(2, 5)
+    lines = []
+    killers = rng.sample(range(n), rng.randint(1, min(2, n)))
+    for g in range(n):
+        k = rng.randint(3, 7)
+        steps = [f'yield {rng.choice(["N", "N", "N", "0", "2"])}' for _ in range(k)]
+        if g in killers:
+            acts = [f'kill {g}'] + ([f'start {g}'] if rng.random() < 0.3 else [])
+            steps[rng.randrange(k)] = ' ; '.join(acts + [f'yield {rng.choice(["N", "N", "4"])}'])
+        lines.append(f'gen {g} : ' + ' | '.join(steps + ['ret N']))
+    order = list(range(n))
+    rng.shuffle(order)
+    for g in order:
+        lines.append(f'op start {g}')
+    for f in range(rng.randint(5, 10)):
+        lines.append(f'op process {rng.choice([1, 1, 2])}')
+        if rng.random() < 0.1:
+            g = rng.choice(killers)
+            lines.append(f'op start {g}')
     return lines
 
 
